@@ -19,14 +19,14 @@ import (
 )
 
 type SOp struct {
-	Op     string `json:"op"` // "vote" | "proposal" | "reload"
-	Type   int32  `json:"type,omitempty"`
-	H      int64  `json:"h,omitempty"`
-	R      int32  `json:"r,omitempty"`
-	Block  int    `json:"block,omitempty"` // 0 = nil block id, 1/2 = two different blocks
-	TS     int64  `json:"ts,omitempty"`    // seconds offset
-	Chain  string `json:"chain,omitempty"`
-	POL    int32  `json:"pol,omitempty"`
+	Op    string `json:"op"` // "vote" | "proposal" | "reload"
+	Type  int32  `json:"type,omitempty"`
+	H     int64  `json:"h,omitempty"`
+	R     int32  `json:"r,omitempty"`
+	Block int    `json:"block,omitempty"` // 0 = nil block id, 1/2 = two different blocks
+	TS    int64  `json:"ts,omitempty"`    // seconds offset
+	Chain string `json:"chain,omitempty"`
+	POL   int32  `json:"pol,omitempty"`
 	// Fault: the state file cannot be replaced while this request is served (the durable write fails and
 	// the process dies, as the signer panics); afterwards the file is usable again and the signer is reloaded.
 	Fault bool `json:"fault,omitempty"`
